@@ -458,6 +458,10 @@ def run(rep, tier, seed):
         cs2 = [c for c in cs2 if c.qualname in ("snap_pl", "lc_approx") and c.variant in ("given=", "given=start,stop,num_steps")]
         if cs2:
             run_contracts(rep, cs2, t2, tier=tier, pid="C19", replayers=[(r"frame|dtype_store", _replay_search)])
+    # plot_diagrams works on private single-precision copies: no store into the caller's arrays on any path
+    from contracts.c20_plots import plot_diagrams_contracts
+    cs3, t3 = plot_diagrams_contracts("quick")
+    run_contracts(rep, cs3[:2], t3, tier=tier, pid="C19", replayers=[(r"frame|dtype_store", _replay_search)])
     # keep only ownership / dtype clauses in this property's ledger
     keep = [o for o in rep.obligations if (".frame." in o["name"] or ".dtype_store." in o["name"] or o["name"].startswith("static:"))]
     dropped = len(rep.obligations) - len(keep)
